@@ -25,6 +25,7 @@ RULE = (
     "the independent decoder finds in the pending buffer (consuming it exactly). Breadth-first with state merging: states = "
     "distinct canonical (file bytes and cursor, pending bytes and cursor, block_count, every Writer field its methods read, model list, step counter) "
     "tuples; transitions = operations applied (each to a representative history of its source state)."
+    " Operation side_file: a second complete container file is written and read back inside the Writer's lifetime."
 )
 ASSUMPTIONS = [
     "canonical state = everything Writer methods read (output bytes, pending buffer, block_count) plus the model list; merged states have equal futures",
